@@ -421,6 +421,81 @@ impl RowLockManager {
     }
 }
 
+/// Verification hook: one `RowLockManager` operation on a lock table built from raw entries.
+#[cfg(feature = "neumann_verif")]
+pub mod verif_rowlock {
+    use super::{now_epoch_millis, RowLock, RowLockManager};
+
+    /// A lock entry: (table, row, owner, expired).
+    pub type Entry = (String, u64, u64, bool);
+
+    /// Builds the table (`expired` entries are far past their timeout, the others fresh), runs `op`
+    /// ("try_lock", "release", "cleanup_expired", "is_locked", "lock_holder") and returns
+    /// (result text, lock entries afterwards as (table, row, owner), reverse index afterwards).
+    #[must_use]
+    #[allow(clippy::type_complexity)]
+    pub fn step(
+        locks: &[Entry],
+        tx_locks: &[(u64, Vec<(String, u64)>)],
+        op: &str,
+        tx: u64,
+        rows: &[(String, u64)],
+    ) -> (String, Vec<(String, u64, u64)>, Vec<(u64, Vec<(String, u64)>)>) {
+        let lm = RowLockManager::new();
+        {
+            let mut l = lm.locks.write();
+            for (table, row, owner, expired) in locks {
+                l.insert(
+                    (table.clone(), *row),
+                    RowLock {
+                        table: table.clone(),
+                        row_id: *row,
+                        tx_id: *owner,
+                        acquired_at_ms: if *expired { 0 } else { now_epoch_millis() },
+                        timeout_ms: if *expired { 0 } else { 3_600_000 },
+                    },
+                );
+            }
+            let mut t = lm.tx_locks.write();
+            for (owner, keys) in tx_locks {
+                t.insert(*owner, keys.clone());
+            }
+        }
+        let result = match op {
+            "try_lock" => match lm.try_lock(tx, rows) {
+                Ok(()) => "ok".to_string(),
+                Err(c) => format!("conflict:{}", c.blocking_tx),
+            },
+            "release" => {
+                lm.release(tx);
+                String::new()
+            },
+            "cleanup_expired" => lm.cleanup_expired().to_string(),
+            "is_locked" => rows
+                .first()
+                .map_or(String::new(), |(t, r)| lm.is_locked(t, *r).to_string()),
+            _ => rows
+                .first()
+                .map_or(String::new(), |(t, r)| format!("{:?}", lm.lock_holder(t, *r))),
+        };
+        let mut after: Vec<(String, u64, u64)> = lm
+            .locks
+            .read()
+            .values()
+            .map(|l| (l.table.clone(), l.row_id, l.tx_id))
+            .collect();
+        after.sort();
+        let mut idx: Vec<(u64, Vec<(String, u64)>)> = lm
+            .tx_locks
+            .read()
+            .iter()
+            .map(|(k, v)| (*k, v.clone()))
+            .collect();
+        idx.sort();
+        (result, after, idx)
+    }
+}
+
 /// Information about a lock conflict.
 #[derive(Debug, Clone)]
 pub(crate) struct LockConflictInfo {
